@@ -180,7 +180,11 @@ def run(run):
                 for lim in (0.05, 1.0, 30.0, 2):
                     cfg = {"constraint": "PeakAmplitudeConstraint", "complex": cplx, "ndim": len(shape), "family": fname, "limit": lim}
                     try:
-                        y = K.PeakAmplitudeConstraint(lim)(x)
+                        xin = x
+                        if (len(shape) + int(cplx) + (1 if lim < 1 else 0)) % 2 == 0:
+                            xin = x.clone().requires_grad_(True)      # every other case: the signal is tracked by autograd (the output of a trainable encoder)
+                            cfg["input_form"] = "requires_grad"
+                        y = K.PeakAmplitudeConstraint(lim)(xin).detach()
                         add({"ev": "Peak", "raised": False, "peak_ppm": sint(min(float(y.abs().max()) / lim, 2000.0) * 1e6), "shape_ok": tuple(y.shape) == tuple(x.shape)}, "PeakAmplitudeConstraint", cfg)
                     except Exception as ex:
                         add({"ev": "Peak", "raised": True, "error": repr(ex)[:100]}, "PeakAmplitudeConstraint", cfg)
